@@ -396,3 +396,38 @@ func ZZFollowerQueued(n, order int) {
 	}
 	vReach("end")
 }
+
+// ZZFollowerSyncWindow (C03, C01): the follower's durability path when appends keep arriving WHILE a WAL sync is
+// in flight: a sync covers what had been appended when it started, not what lands during it. The real stream
+// handler / append / handleReplicateSync goroutines receive k pipelined entries; every Ack the follower emits is
+// checked at that moment: the offset is covered by a completed sync (an acknowledged entry survives a crash of
+// this follower) and holds the leader's entry.
+func ZZFollowerSyncWindow(n, k int) {
+	total := n + k
+	T := int64(3)
+	g := &zzGhost{term: make([]int64, total), val: vBytes("payload", total)}
+	for i := range g.term {
+		g.term[i] = T
+	}
+	w := zzNewWal("f")
+	for i := 0; i < n; i++ {
+		_ = w.AppendAsync(&proto.LogEntry{Term: T, Offset: int64(i), Value: []byte{g.val[i]}})
+	}
+	w.lastSynced = w.lastAppended
+	w.syncWindow = true
+	fc := zzFollowerOver(w, &zzKV{}, T)
+	st := &zzRepStream{ctx: context.Background(), in: make(chan *proto.Append, 8), w: w, ghost: g}
+	done := make(chan error, 1)
+	vGo("replicate", func() { done <- fc.Replicate(st) })
+	for o := n; o < total; o++ {
+		st.in <- &proto.Append{Term: T, Entry: &proto.LogEntry{Term: T, Offset: int64(o), Value: []byte{g.val[o]}}, CommitOffset: -1}
+		vYield("leader-sends")
+	}
+	vSettle(30)
+	close(st.in)
+	<-done
+	for _, a := range st.acks {
+		vAssert("only-received-entries-are-acknowledged", a >= int64(n) && a < int64(total))
+	}
+	vReach("end")
+}
